@@ -16,3 +16,4 @@ for s in $SEEDS; do
   nf=$(grep -c "no-failing-input-found" build/matrix/$s.log)
   echo "$s $pid exit=$rc violations=$v nofail=$nf secs=$(( $(date +%s) - t0 ))"
 done
+tools/rebuild.sh > /dev/null 2>&1   # leave the harness built from the clean tree
